@@ -167,16 +167,32 @@ def _ch_insert(L):
     L.set('ridx', e.concat(L._st, e.list_of(L._st, [VInt(new)]), L.raw('ridx')))
 
 
+CHSRC = z3.Function('chain_source_index', z3.ArraySort(z3.IntSort(), Ref), z3.ArraySort(z3.IntSort(), Ref), z3.IntSort(), z3.IntSort(), z3.IntSort())
+
+
+def _members_of_input(C, res, w):
+    """every returned segment is one of the input segments (same object): w(t) = its index in the input (witness where proved, Skolem where assumed)"""
+    S = C.segments
+    t = z3.Int('cst')
+    return ('every_returned_segment_is_one_of_the_input_segments',
+            z3.ForAll([t], z3.Implies(z3.And(0 <= t, t < res.len), z3.And(0 <= w(t), w(t) < S.len, res.raw(t).t == S.raw(w(t)).t)),
+                      patterns=[res.raw(t).t]))
+
+
 def _ch_ensures(C, res):
     S = C.segments
     k = z3.Int('k')
     if not C.has('F'):
-        return [('same_or_fewer_segments', res.len <= S.len)]
+        return [('same_or_fewer_segments', res.len <= S.len),
+                _members_of_input(C, res, lambda t: CHSRC(res.v.arrs[0], S.v.arrs[0], S.off, t))]
     F_ = C.F
+    flog, slog = C.note('filter_log'), C.note('sorted_log')
+    idx_empty, idx_gen, pi = flog[0]['idx'], flog[1]['idx'], slog[0]['pi']
     if not F_.has('result'):
         # no non-empty segment: the empty ones are returned
         E = F_.emptySegments
-        return [('only_empty_segments_returned', z3.And(same_list(res, E), F_.preOrderedNonEmptySegments.len == 0))]
+        return [('only_empty_segments_returned', z3.And(same_list(res, E), F_.preOrderedNonEmptySegments.len == 0)),
+                _members_of_input(C, res, lambda t: idx_empty(t))]
     pre, cum, prv, E, ridx = F_.preOrderedNonEmptySegments, F_.cumulatedScore, F_.previousSegmentIndexes, F_.emptySegments, F_.ridx
     sc = C.self.sequentialityScorer.ref
     m = ridx.len
@@ -187,6 +203,7 @@ def _ch_ensures(C, res):
     score = lambda k: pre[k].segmentScore
     b0 = F_.b0
     return [
+        _members_of_input(C, res, lambda t: z3.If(t < m, idx_gen(pi(ridx[t])), idx_empty(t - m))),
         ('chain_then_empty_segments', z3.And(res.len == m + E.len, m >= 1,
                                             forall(t, z3.Implies(rng(0, t, E.len), res.raw(m + t).t == E.raw(t).t), [E.raw(t).t]))),
         ('chain_members_are_distinct_segments_in_diagonal_order', z3.And(
